@@ -45,16 +45,20 @@ type PropertyHandler interface {
 // updater update the specific property to downstream.
 type DefaultPropertyHandler struct {
 	lastUpdateProperty interface{}
+	// updated tells "nothing handled yet" from "the last property handled was empty": both leave
+	// lastUpdateProperty nil, and a first, empty property is not a repetition of anything.
+	updated bool
 
 	converter PropertyConverter
 	updater   PropertyUpdater
 }
 
 func (h *DefaultPropertyHandler) isPropertyConsistent(src interface{}) bool {
-	isConsistent := reflect.DeepEqual(src, h.lastUpdateProperty)
+	isConsistent := h.updated && reflect.DeepEqual(src, h.lastUpdateProperty)
 	if isConsistent {
 		return true
 	} else {
+		h.updated = true
 		h.lastUpdateProperty = src
 		return false
 	}
